@@ -268,7 +268,7 @@ class RoundTrip(Contract):
 def contracts():
     cs = [RoundTrip([(a, c)]) for a in (True, False) for c in SCN]
     pairs = [((True, 'bool'), (True, 'float')), ((True, 'float'), (False, 'bool')), ((False, 'none'), (True, 'bool')), ((True, 'none'), (True, 'none')),
-             ((False, 'float'), (True, 'float')), ((True, 'bool'), (False, 'none')), ((False, 'bool'), (False, 'float')), ((True, 'float'), (True, 'bool'))]
+             ((False, 'bool'), (False, 'float'))]
     cs += [RoundTrip(p) for p in pairs]
     return cs
 
